@@ -327,6 +327,12 @@ func (d *Driver) Sync() {
 				if meta == nil || commit == nil {
 					continue
 				}
+				// queryMaj23Routine / VoteSetMaj23Message: a tells b which block it saw +2/3 for, so that
+				// b also accepts a precommit for that block from a validator whose other vote it holds
+				// (the reactor calls HeightVoteSet.SetPeerMaj23 directly, outside the message queue)
+				if brs.Votes != nil {
+					brs.Votes.SetPeerMaj23(commit.Round(), types.VoteTypePrecommit, peerKey(a.ID), commit.BlockID)
+				}
 				for _, pc := range commit.Precommits {
 					if pc != nil {
 						net.Send(a.ID, b.ID, &pbft.VoteMessage{Vote: pc})
@@ -339,27 +345,52 @@ func (d *Driver) Sync() {
 					}
 				}
 			case brs.Height == ars.Height:
-				// last-commit stragglers are not needed for progress; votes of this height are
+				// votes of this height that b does not have yet (gossip only sends what the peer lacks)
 				for r := int64(0); r <= ars.Votes.Round(); r++ {
-					for _, vs := range []*types.VoteSet{ars.Votes.Prevotes(r), ars.Votes.Precommits(r)} {
+					for ti, vs := range []*types.VoteSet{ars.Votes.Prevotes(r), ars.Votes.Precommits(r)} {
 						if vs == nil {
 							continue
 						}
-						for i := 0; i < vs.Size(); i++ {
-							if v := vs.GetByIndex(i); v != nil {
-								net.Send(a.ID, b.ID, &pbft.VoteMessage{Vote: v})
+						var bvs *types.VoteSet
+						if ti == 0 {
+							bvs = brs.Votes.Prevotes(r)
+						} else {
+							bvs = brs.Votes.Precommits(r)
+						}
+						if id, ok := vs.TwoThirdsMajority(); ok {
+							typ := types.VoteTypePrevote
+							if ti == 1 {
+								typ = types.VoteTypePrecommit
 							}
+							brs.Votes.SetPeerMaj23(r, typ, peerKey(a.ID), id)
+						}
+						for i := 0; i < vs.Size(); i++ {
+							v := vs.GetByIndex(i)
+							if v == nil {
+								continue
+							}
+							if bvs != nil {
+								if have := bvs.GetByIndex(i); have != nil && have.BlockID.Equals(v.BlockID) {
+									continue
+								}
+							}
+							net.Send(a.ID, b.ID, &pbft.VoteMessage{Vote: v})
 						}
 					}
 				}
-				if ars.Proposal != nil && ars.Round == brs.Round {
+				if ars.Proposal != nil && ars.Round == brs.Round && brs.Proposal == nil {
 					net.Send(a.ID, b.ID, &pbft.ProposalMessage{Proposal: ars.Proposal})
 				}
 				if ars.ProposalBlockParts != nil && (ars.Round == brs.Round || ars.Step >= pbft.RoundStepCommit || brs.Step >= pbft.RoundStepCommit) {
 					for i := 0; i < ars.ProposalBlockParts.Total(); i++ {
-						if p := ars.ProposalBlockParts.GetPart(i); p != nil {
-							net.Send(a.ID, b.ID, &pbft.BlockPartMessage{Height: ars.Height, Round: ars.Round, Part: p})
+						p := ars.ProposalBlockParts.GetPart(i)
+						if p == nil {
+							continue
 						}
+						if brs.ProposalBlockParts != nil && brs.ProposalBlockParts.HasHeader(ars.ProposalBlockParts.Header()) && brs.ProposalBlockParts.GetPart(i) != nil {
+							continue
+						}
+						net.Send(a.ID, b.ID, &pbft.BlockPartMessage{Height: ars.Height, Round: ars.Round, Part: p})
 					}
 				}
 			}
@@ -573,7 +604,7 @@ func (d *Driver) RunFair(until int64, maxSteps int) bool {
 		if reached() {
 			return true
 		}
-		if i%40 == 39 {
+		if i%40 == 39 && len(d.Net.InFlight) == 0 {
 			d.Sync() // the reactors' gossip routines run all the time
 		}
 		if d.FairStep() {
